@@ -77,7 +77,7 @@ BINDS = ["127.0.0.1:8000", "tcp://127.0.0.1:8000", "127.0.0.1:9000", "LOCALHOST:
 
 def mk_cfg(workers, bind, pidfile, K):
     hook = lambda *a, **k: None  # noqa: E731
-    real = W.make_cfg(workers=workers, bind=[bind], **({"pidfile": pidfile} if pidfile else {}))
+    real = W.make_cfg(workers=workers, bind=[bind], daemon=bool(CASE.get("winch")), **({"pidfile": pidfile} if pidfile else {}))
     return CfgView(real, pre_fork=hook, nworkers_changed=hook, worker_exit=hook, child_exit=hook, on_exit=hook,
                    on_reload=hook, worker_class=KS.worker_class(K), env={}, env_orig={}, logger_class=None,
                    settings={}, preload_app=False, proc_name="g")
@@ -93,8 +93,12 @@ def reload_(k: int, w2: int, bi: int, pf: int, tape: List[int], st: List[int], h
     """
     k, bi, wrap = CASE["k"], CASE["bi"], CASE["wrap"]
     w2, pf, hups = pick(w2, 1, 3), pick(pf, 0, 2), pick(hups, 1, CASE["hups"])
-    K = KS.Kernel(tape=tape, statuses=[STATUS_SET[s] for s in st], master_signals=[int(signal.SIGHUP)] * hups,
-                  budget=hups + len(tape) + 4)
+    sigs = [int(signal.SIGHUP)] * hups
+    if CASE.get("winch"):
+        sigs = [int(signal.SIGWINCH)] + sigs          # daemonised master told to retire its workers, then reloaded
+    K = KS.Kernel(tape=tape, statuses=[STATUS_SET[s] for s in st], master_signals=sigs,
+                  budget=len(sigs) + len(tape) + 4)
+    K.deaf_first_term = bool(CASE.get("deaf"))
     if wrap:
         K.next_pid = 32760                # the old generation got high pids ...
     arb = mk_arbiter(K, k, timeout=30, ages=list(range(1, k + 1)))
@@ -107,6 +111,7 @@ def reload_(k: int, w2: int, bi: int, pf: int, tape: List[int], st: List[int], h
     old_bind = "LOCALHOST:8000" if bi == 3 else BINDS[0]
     new_bind = "localhost:8000" if bi == 3 else BINDS[bi]
     arb.cfg = mk_cfg(k, old_bind, old_pf, K)
+    arb.setup(SimpleNamespace(cfg=arb.cfg, wsgi=lambda: None))      # the master's view of its configuration, as after start
     new_cfg = mk_cfg(w2, new_bind, new_pf, K)
     arb.app = SimpleNamespace(cfg=arb.cfg)
 
@@ -160,8 +165,8 @@ def reload_(k: int, w2: int, bi: int, pf: int, tape: List[int], st: List[int], h
             break
         if ev[0] == "fork" and ev[1] not in old_pids:
             forks_before += 1
-    if first_kill is not None and forks_before < w2:
-        return False
+    if first_kill is not None and forks_before < w2 and not CASE.get("winch"):
+        return False                      # (after WINCH the old workers were retired on purpose before the reload)
     # 3. old workers are asked with TERM only
     for ev in K.events:
         if ev[0] == "kill" and ev[1] in old_pids and ev[2] != int(signal.SIGTERM):
@@ -183,7 +188,11 @@ def reload_(k: int, w2: int, bi: int, pf: int, tape: List[int], st: List[int], h
         pass
     ok_unlink = ("unlink", old_pf) in PidRec.log
     ok_create = ("create", new_pf, 1) in PidRec.log
-    return ok_unlink and ok_create
+    if not (ok_unlink and ok_create):
+        return False
+    # the old file is released before the new one is created (Pidfile.create does nothing when the path already names us,
+    # and the old object's unlink() would then remove the file the master is supposed to keep)
+    return PidRec.log.index(("unlink", old_pf)) < PidRec.log.index(("create", new_pf, 1))
 
 
 def reload_twin(k: int, w2: int, bi: int, pf: int, tape: List[int], st: List[int], hups: int, wrap: bool) -> bool:
@@ -200,8 +209,12 @@ def reload_twin(k: int, w2: int, bi: int, pf: int, tape: List[int], st: List[int
 
 
 def _cases(ks, tape, hups):
-    return [{"k": k, "bi": bi, "wrap": wrap, "tape": tape, "hups": hups} for k in ks for bi in range(5) for wrap in (False, True)
-            if not (k == 0 and wrap)]
+    out = [{"k": k, "bi": bi, "wrap": wrap, "tape": tape, "hups": hups} for k in ks for bi in range(5) for wrap in (False, True)
+           if not (k == 0 and wrap)]
+    # workers that lose the first SIGTERM they are sent (still booting when a second HUP / the retirement arrives)
+    out += [{"k": k, "bi": 0, "wrap": False, "tape": 0, "hups": 2, "deaf": True} for k in ks if k]
+    out += [{"k": k, "bi": 0, "wrap": False, "tape": 0, "hups": 1, "winch": True} for k in ks if k]
+    return out
 
 
 OBLIGATIONS = [
